@@ -2,7 +2,8 @@
    prescribes. *)
 From Coq Require Import Permutation.
 From Snax Require Import Base.Prelude Base.ListAux Model.Tsl Model.C05Copy Model.C12Const
-  Proofs.TslProofs Proofs.C05MemProofs Proofs.C05DigitProofs Proofs.C05CopyProofs Proofs.C05MainProofs.
+  Proofs.TslProofs Proofs.C05MemProofs Proofs.C05DigitProofs Proofs.C05CopyProofs Proofs.C05MainProofs
+  Proofs.C05ExtraProofs.
 
 (* ---- generic ------------------------------------------------------------------------------- *)
 Lemma nth_map_zrange {A} (f : Z -> A) n x d : 0 <= x < n ->
@@ -208,4 +209,82 @@ Proof.
   - apply Forall_forall. intros sb Hsb. rewrite forallb_forall in Hpos. specialize (Hpos sb Hsb). lia.
   - exact Hs.
   - apply (valid_same_tb _ _ _ Htb Hv).
+Qed.
+
+(* ---- the index of the reshaped array is the row-major index ------------------------------------ *)
+Definition fscale (c : Z) (f : fstride) : fstride := (f_step f, f_bound f, f_rm f * c).
+
+Lemma with_rm_app l1 l2 :
+  with_rm (l1 ++ l2) = map (fscale (zprod (map snd l2))) (with_rm l1) ++ with_rm l2.
+Proof.
+  induction l1 as [|sb l1 IH]; [reflexivity|]. cbn [app with_rm map]. rewrite IH. f_equal.
+  unfold fscale, f_step, f_bound, f_rm. cbn [fst snd]. rewrite map_app, zprod_app. reflexivity.
+Qed.
+
+Lemma dotT_fscale c W : forall ds, dotT (map ftri (map (fscale c) W)) ds = c * dotT (map ftri W) ds.
+Proof.
+  induction W as [|w W IH]; intros [|d ds]; cbn [map dotT]; try ring. rewrite IH.
+  unfold ftri, fscale, tdst, f_rm. cbn [fst snd]. ring.
+Qed.
+
+Lemma zprod_bounds_static t : tstride_ok t -> zprod (map snd (map static_of t)) = bounds_prod t.
+Proof.
+  induction 1 as [|s t Hs Ht IH]; [reflexivity|]. destruct Hs as [a [b [-> Hb]]].
+  cbn [map static_of snd]. rewrite zprod_cons, IH, bounds_prod_cons. unfold tbound. cbn [sbound snd].
+  replace (b =? 0) with false by lia. reflexivity.
+Qed.
+
+Lemma length_with_rm l : length (with_rm l) = length l.
+Proof. induction l as [|sb l IH]; [reflexivity|]. cbn [with_rm length]. rewrite IH. reflexivity. Qed.
+
+Lemma length_tdigits t x : length (tdigits t x) = length t.
+Proof. induction t as [|s t IH]; [reflexivity|]. cbn [tdigits length]. rewrite IH. reflexivity. Qed.
+
+(* one dimension: the tile digits of x recombine to x *)
+Lemma tdigits_recombine t : tstride_ok t -> forall x, 0 <= x < bounds_prod t ->
+  dotT (map ftri (with_rm (map static_of t))) (tdigits t x) = x.
+Proof.
+  induction 1 as [|s t Hs Ht IH]; intros x Hx.
+  - unfold bounds_prod, zprod in Hx. cbn in Hx. cbn. lia.
+  - pose proof (bounds_prod_pos t Ht) as Hp.
+    assert (Hst : tstride_ok (s :: t)) by (constructor; assumption).
+    destruct Hs as [a [b [-> Hb]]].
+    rewrite bounds_prod_cons in Hx. unfold tbound in Hx. cbn [sbound snd] in Hx.
+    replace (b =? 0) with false in Hx by lia.
+    cbn [map with_rm tdigits dotT static_of fst snd].
+    rewrite (zprod_bounds_static t Ht). rewrite bounds_prod_cons. unfold tbound at 1. cbn [sbound snd].
+    replace (b =? 0) with false by lia.
+    unfold ftri at 1. unfold tdst, f_rm. cbn [fst snd].
+    rewrite (Z.mod_small x (b * bounds_prod t)) by lia.
+    rewrite <- (tdigits_mod t Ht (bounds_prod t) x Hp) by (exists 1; lia).
+    rewrite (IH (x mod bounds_prod t)) by (apply Z.mod_pos_bound; exact Hp).
+    pose proof (Z.div_mod x (bounds_prod t)) as Hdm. lia.
+Qed.
+
+Theorem digits_row_major ts : Forall tstride_ok ts -> forall idx, in_box idx (map bounds_prod ts) ->
+  dotT (map ftri (with_rm (map static_of (concat ts)))) (digits ts idx) = rm_addr (map bounds_prod ts) idx.
+Proof.
+  induction 1 as [|t ts Ht Hts IH]; intros idx Hbox; inversion Hbox as [|x n idx' sh Hx Hbox']; subst.
+  - reflexivity.
+  - cbn [concat digits map]. rewrite map_app, with_rm_app, map_app.
+    rewrite dotT_app by (rewrite !map_length, length_with_rm, map_length, length_tdigits; reflexivity).
+    rewrite dotT_fscale, (tdigits_recombine t Ht x Hx), (IH idx' Hbox').
+    unfold rm_addr. cbn [row_major_strides C05Copy.dot].
+    assert (Hz : zprod (map snd (map static_of (concat ts))) = zprod (map bounds_prod ts)).
+    { clear -Hts. induction Hts as [|t' ts' Ht' Hts' IH']; [reflexivity|].
+      cbn [concat map]. rewrite !map_app, zprod_app, zprod_cons.
+      f_equal; [apply zprod_bounds_static; exact Ht'|exact IH']. }
+    rewrite Hz. ring.
+Qed.
+
+(* transform_constant, final form: the element at row-major position idx of the original constant is found
+   at the address the new layout assigns to idx *)
+Theorem transform_constant_row_major (L : layout) (old new : list Z) (idx : list Z) :
+  layout_ok L -> mixed_radix_sorted L = true -> transform_constant old L = Some (Some new) ->
+  In idx (row_major (shape_of L)) ->
+  nth (Z.to_nat (affine_map_eval L idx)) new 0 = nth (Z.to_nat (rm_addr (shape_of L) idx)) old 0.
+Proof.
+  intros Hok Hmr Htc Hidx. rewrite (transform_constant_correct L old new idx Hok Hmr Htc Hidx).
+  unfold flat_static, all_strides, shape_of. rewrite (digits_row_major (tstrides L) Hok idx); [reflexivity|].
+  apply in_row_major. exact Hidx.
 Qed.
